@@ -65,6 +65,17 @@ struct DyadicMap
     std::size_t K;
     std::vector<std::vector<T>> v;      // v[channel][cell]
     bool with_jacobian;
+    bool eager;                         // fill the density buffer while computing the coordinates (allowed by the interface)
+    void fill(std::vector<T> const& co, std::vector<std::size_t> const& enabled, std::vector<T>& dens) const
+    {
+        T J = with_jacobian ? T(1) + co[0] : T(1);
+        for (std::size_t j : enabled)
+        {
+            T p = T(1);
+            for (std::size_t k = 0; k < co.size(); ++k) p *= v[j][std::min<std::size_t>(K - 1, (std::size_t)(co[k] * T(K)))];
+            dens[j] = J * p;
+        }
+    }
     T operator()(std::size_t channel, std::vector<T> const& rn, std::vector<T>& co, std::vector<std::size_t> const& enabled, std::vector<T>& dens,
         hep::multi_channel_map action) const
     {
@@ -77,20 +88,11 @@ struct DyadicMap
                 for (; c + 1 < K; ++c) { T m = v[channel][c] / T(K); if (r < cum + m) break; cum += m; }
                 co[k] = (T(c) + (r - cum) / (v[channel][c] / T(K))) / T(K);
             }
+            if (eager) fill(co, enabled, dens);
             return with_jacobian ? T(1) + co[0] : T(1);
         }
-        T J = with_jacobian ? T(1) + co[0] : T(1);
-        for (std::size_t j : enabled)
-        {
-            T p = T(1);
-            for (std::size_t k = 0; k < co.size(); ++k)
-            {
-                std::size_t c = std::min<std::size_t>(K - 1, (std::size_t)(co[k] * T(K)));
-                p *= v[j][c];
-            }
-            dens[j] = J * p;
-        }
-        return J;
+        if (!eager) fill(co, enabled, dens);
+        return with_jacobian ? T(1) + co[0] : T(1);
     }
 };
 
@@ -218,6 +220,48 @@ void vegas_case(Rng& rng, bool plain)
     sample(info, 4);
 }
 
+// ---- per-call weight monitor for VEGAS in any dimension (a tensor lattice is impossible beyond a few dimensions) ----
+void vegas_weight_case(Rng& rng)
+{
+    static const std::size_t bin_choices[] = {2, 5, 16, 128, 128, 1000};
+    std::size_t d = rng.below(2) ? rng.range(1, 8) : rng.range(9, 40);
+    std::size_t bins = bin_choices[rng.below(6)];
+    hep::vegas_pdf<T> pdf(d, bins);
+    bool uniform = rng.below(3) == 0;
+    if (!uniform)
+        for (std::size_t k = 0; k < d; ++k)
+        {
+            std::vector<T> x(bins + 1);
+            for (auto& v : x) v = T(rng.u01l());
+            x[0] = T(0); x[bins] = T(1);
+            std::sort(x.begin(), x.end());
+            for (std::size_t b = 0; b <= bins; ++b) pdf.set_bin_left(k, b, x[b]);
+        }
+    J info;
+    info.s("T", tname<T>::get()).u("dims", d).u("bins", bins).b("uniform_grid", uniform);
+    for (int rep = 0; rep < 50; ++rep)
+    {
+        std::vector<T> u(d);
+        for (auto& v : u) v = T(rng.u01l());
+        std::vector<T> x = u;
+        std::vector<std::size_t> bin(d);
+        T w = hep::vegas_icdf(pdf, x, bin);
+        LD ref = 1;
+        for (std::size_t k = 0; k < d; ++k)
+        {
+            if (bin[k] >= bins) { viol("vegas:bin-index-out-of-range", info); return; }
+            ref *= (LD)bins * ((LD)pdf.bin_left(k, bin[k] + 1) - (LD)pdf.bin_left(k, bin[k]));
+        }
+        count("vegas_weights_checked");
+        if (d > 8) count("vegas_weights_checked_in_more_than_8_dimensions");
+        // a weight outside the range of T is legitimately inf / 0 / denormal: not judged
+        if (!(ref < (LD)std::numeric_limits<T>::max() / 4) || !(ref > (LD)std::numeric_limits<T>::min() * 4)) { count("vegas_weights_out_of_range_unjudged"); continue; }
+        if (!close_rel<T>(w, ref, 8 * (d + 1))) { viol("vegas:reported-weight-is-not-prod(bins*width)", J(info).f("weight", w).f("expected", ref)); return; }
+    }
+    ++ctx().evaluations;
+    nontrivial(hash_str(info.str()));
+}
+
 // ---- multi channel ------------------------------------------------------------------------------------
 void mc_case(Rng& rng)
 {
@@ -225,6 +269,7 @@ void mc_case(Rng& rng)
     DyadicMap map;
     map.K = K;
     map.with_jacobian = rng.below(2);
+    map.eager = rng.below(2);
     for (std::size_t i = 0; i < n; ++i)
     {
         // values multiples of 1/2 with mean exactly 1
@@ -284,7 +329,7 @@ void mc_case(Rng& rng)
     auto r = hep::multi_channel_iteration(integrand, N, w, eng);
     g_lin = 0; g_channel_hits = 0; g_wc = 0;
     J info;
-    info.s("T", tname<T>::get()).s("integrator", "multi_channel").u("dims", d).u("cells", K).u("channels", n).s("weights_kind", wkind).fv("weights", w).b("jacobian", map.with_jacobian)
+    info.s("T", tname<T>::get()).s("integrator", "multi_channel").u("dims", d).u("cells", K).u("channels", n).s("weights_kind", wkind).fv("weights", w).b("jacobian", map.with_jacobian).b("eager_map", map.eager)
         .u("lattice_points", N).fv("a", lin.a).fv("c", lin.c);
     ++ctx().evaluations;
     count("mc_lattices");
@@ -348,8 +393,9 @@ std::uint64_t vfh_num_cases(bool thorough) { return thorough ? 20000 : 420; }
 
 void vfh_run_case(std::uint64_t idx, Rng& rng)
 {
-    switch (idx % 6)
+    switch (idx % 7)
     {
+    case 6: vegas_weight_case(rng); break;
     case 0: vegas_case(rng, true); break;
     case 1: case 2: case 3: vegas_case(rng, false); break;
     default: mc_case(rng); break;
